@@ -301,17 +301,27 @@ func (w *c11world) check(probe bool, first ...int) (clause, detail string) {
 			return "tree", fmt.Sprintf("logger L%d: parent is not L%d", i, wantP)
 		}
 		{
-			sevs := []slog.Level{slog.InfoLevel, c11Plain, slog.Level(77)}
-			if !probe {
-				sevs = sevs[:1] // intermediate states: one record per logger; final state: all three severities
+			type probeRec struct {
+				sev   slog.Level
+				msg   string
+				attrs slog.Attrs
 			}
-			for _, sev := range sevs {
+			withAttrs := slog.Attrs{slog.Int("k", 1), slog.NewAttr("err", errors.New("boom"))}
+			probes := []probeRec{
+				{slog.InfoLevel, "probe\nwith a second line\nand a third\n", withAttrs}, // coloured records keep per-record line state in the pooled context
+				{c11Plain, "probe", withAttrs},
+				{slog.Level(77), "probe", withAttrs},
+				// records that carry neither a text nor an attribute are records of the logger's format like any other
+				{slog.InfoLevel, "", nil},
+				{slog.WarnLevel, " \n", nil},
+			}
+			if !probe {
+				probes = probes[:1] // intermediate states: one record per logger; final state: all of them
+			}
+			for _, pr := range probes {
+				sev := pr.sev
 				w.rec.reset()
-				msg := "probe"
-				if sev == slog.InfoLevel {
-					msg = "probe\nwith a second line\nand a third\n" // coloured records keep per-record line state in the pooled context
-				}
-				l.WriteThru(bg, sev, fixedTime, 0, msg, slog.Attrs{slog.Int("k", 1), slog.NewAttr("err", errors.New("boom"))})
+				l.WriteThru(bg, sev, fixedTime, 0, pr.msg, pr.attrs)
 				if len(w.rec.events) != 1 {
 					return "record-shape", fmt.Sprintf("logger L%d: %d writes for the probe", i, len(w.rec.events))
 				}
